@@ -63,7 +63,7 @@ QUICK = [
     ("S0", V20, 4, "BUILD"),
     ("S2", V21, 2, "FULL"),
     ("S3", V20, 2, "EDIT"),
-    ("S3r", V21D, 3, "READD"),
+    ("S3r", V21D, 2, "READD"),
     ("S1", V20D, 3, "HOLES"),
     ("S2r", V20, 2, "COPY"),
     ("S4", V21, 2, "TABLES"),
